@@ -63,6 +63,9 @@ def field_matches(alg, got, o, env, allobjs):
             return alg.const(got is want)  # the very reference value is passed on
         return alg.const(got is want)
     # integer-valued expression
+    if o[0] == "c":
+        # a method call computes a NEW value: compared by value
+        return alg.int_eq(got, want) if Q._intlike(got) else alg.const(False)
     if alg.symbolic:
         return alg.const(got is want)
     return alg.const(isinstance(got, int) and not isinstance(got, bool) and got == want)
@@ -154,13 +157,14 @@ def heads2():
         dict(src=X, val=["ra", "x"], extra=Y),
         dict(src=["a", "y", "a"], val=X, extra=Y),      # an expression over y BEFORE y itself
         dict(src=["a", "x", "c"], val=["a", "y", "c"], extra=X),
+        dict(src=X, val=["c", "y", 0], extra=Y),         # a method call with a falsy argument as head field
     ]
 
 
 def heads1():
     X = ["v", "x"]
     return [dict(src=X), dict(src=X, val=["a", "x", "a"]), dict(src=["a", "x", "a"], val=["a", "x", "b"], extra=X),
-            dict(src=X, val=["const", ""])]
+            dict(src=X, val=["const", ""]), dict(src=X, val=["c", "x", 0]), dict(src=X, val=["c", "x", 2], extra=["a", "x", "b"])]
 
 
 def shapes(tier, seed):
@@ -203,10 +207,11 @@ def shapes(tier, seed):
             if not any(o[0] == "ra" for o in h.values()):
                 out.append(dict(EMPTY, head=h, cond=b))
     core = S.core_leaves("x")
-    bodies1 = core[:5] + [["and", core[0], core[1]], ["or", core[0], core[2]], ["not", core[1]], None]
+    bodies1 = core[:5] + [["and", core[0], core[1]], ["or", core[0], core[2]], ["not", core[1]], None,
+                          ["over", "x", 0], ["pv", ["a", "x", "b"], 0], ["cmp", "gt", ["c", "x", 0], ["a", "x", "b"]]]
     for h in heads1():
         for b in bodies1:
-            if tier == "thorough" or b is None or rnd.random() < 0.6:
+            if tier == "thorough" or b is None or b[0] in ("over", "pv") or '"c"' in json.dumps(b) or rnd.random() < 0.6:
                 out.append(dict(BASE1, head=h, cond=b))
         out.append(dict(BASE1, head=h, cond=core[0], spelling="add"))
         out.append(dict(BASE1, head=h, cond=core[0], twice=True))
